@@ -1,4 +1,5 @@
 import Chiritori.Lemmas.Totality
+import Chiritori.Lemmas.ListTotal
 /-
   C01 — Totality: clean, list and list_all never panic on any UTF-8 input.
 
@@ -12,8 +13,13 @@ import Chiritori.Lemmas.Totality
   fail (`deleteAll_ok`), the positions handed to `format` are boundaries of the new text
   (`positions_boundary`), every formatter range is boundary-aligned whitespace (`formatCollect_ok`; D15 sat
   here), and overlapping ranges are merged into sorted disjoint ones whatever their order (`mergeOverlapped_spec`).
-  Not yet proved: the two listing functions (`Statement` clauses 2-5); they are exercised by the correspondence
-  check and the totality search only.  Outside every theorem: stack depth and allocation failure.
+  The listing functions (`list_total`, `listAll_total`): every region handed to them - the ready markers, and
+  for `list_all` also the merged pending markers that survive `mergePending` - is non-empty and boundary-aligned
+  (`listMarkers_renderable`, `listAllMarkers_renderable`), and on such a region `build_pretty_string_item`
+  cannot fail (`buildItem_total`: the line start found backwards is a boundary not behind the region start, the
+  line end found forwards is a boundary not before `stop - 1`, the tab counts are bounded by the slice lengths,
+  so none of the six slices and seven `usize` subtractions can fail).  `c01` is the full `Statement`.
+  Outside every theorem: stack depth and allocation failure.
 -/
 namespace Chiritori.Props.C01
 open Chiritori Chiritori.Spec
@@ -36,6 +42,16 @@ theorem c01_clean (src ds de : List Char) (cfg : Cfg) (_ : ds ≠ []) (hde : de 
 theorem c01_clean_utf8 (src ds de : List Char) (cfg : Cfg) (out : List Char) (_ : clean src ds de cfg = .ok out) :
     wellFormed (bytesOf out) = true := by
   simp [wellFormed]
+
+theorem isOk_of_ok {α} {x : R α} (h : ∃ r, x = .ok r) : isOk x := by
+  obtain ⟨r, hr⟩ := h; rw [hr]; trivial
+
+/-- C01, full statement: none of the five entry points can panic -/
+theorem c01 : Statement := by
+  intro src ds de cfg _ hde
+  exact ⟨isOk_of_ok (clean_total src ds de cfg hde),
+    isOk_of_ok (list_total src ds de cfg false hde), isOk_of_ok (list_total src ds de cfg true hde),
+    isOk_of_ok (listAll_total src ds de cfg false hde), isOk_of_ok (listAll_total src ds de cfg true hde)⟩
 
 /-- the facts about the markers that both listing functions start from -/
 theorem c01_markers (src ds de : List Char) (cfg : Cfg) (hde : de ≠ []) :
